@@ -80,7 +80,7 @@ def proof_stage(cfg):
             rc, out = sh(['lake', 'env', 'lean', audit], cwd=LEAN)
             os.unlink(audit)
             found = {}
-            for m in re.finditer(r"^'(.+)' (does not depend on any axioms|depends on axioms: \[([^\]]*)\])", out, re.S | re.M):
+            for m in re.finditer(r"^'(.+)' (does not depend on any axioms|depends on axioms: \[([^\]]*)\])", out, re.M):
                 axs = set(a.strip() for a in (m.group(3) or '').replace('\n', ' ').split(',') if a.strip())
                 found[m.group(1)] = axs
             src = open(os.path.join(LEAN, mod.replace('.', '/') + '.lean')).read()
